@@ -239,6 +239,16 @@ def dispatch_entries(ctx):
             out.append(A.method("StoreImpl", name, tr))
         except AnchorMissing:
             pass
+    # every other implementation of Store::dispatch / Dispatcher::dispatch in the crate (a
+    # batching or buffering dispatcher type, a forwarding impl on a wrapper) is an entry point
+    # with the same contract: Ok means enqueued, synchronously
+    have = {b.path for b in out}
+    for b in ctx.prog.bodies:
+        if b.path in have or b.is_closure() or b.j.get("name") != "dispatch":
+            continue
+        tr = (b.j.get("impl_trait") or "").split("::")[-1].split("<")[0]
+        if tr in ("Store", "Dispatcher"):
+            out.append(b)
     return out
 
 
